@@ -253,6 +253,36 @@ def run(ctx):
             for p in judge(before, dict(srv.scripts), abefore, srv.active, old, new, res):
                 viol.append({"state": "marker %r old=%s new=%s bystander=%s" % (marker, o, n, by), "fault": None, "what": p, "result": out[:80],
                              "before": {k.decode(): v.decode("latin-1") for k, v in before.items()}, "after": {k.decode(): v.decode("latin-1") for k, v in srv.scripts.items()}})
+    # the call REPEATED on the same client after it failed (a user retrying), the store having changed in between: each call is
+    # judged on its own against the store it found — what an earlier attempt did or learnt gives no licence to overwrite
+    for step in ("PUTSCRIPT", "SETACTIVE", "DELETESCRIPT", "GETSCRIPT"):
+        for fault in ("NO", "BYE-then-reconnect"):
+            for change in ("foreign script under the new name", "old script edited", "nothing"):
+                for was_active in (False, True):
+                    scripts = {old: b"keep;\r\n", other: b"stop;\r\n"}
+                    srv = refserver.RefServer(r, scripts=scripts, active=(old if was_active else other), version=False)
+                    srv.faults = {step: "NO" if fault == "NO" else "BYE"}
+                    s = msref.Session()
+                    s.connect(b"", [], "user", "pw", server=srv)
+                    first = s.op("renamescript", old.decode(), new.decode())
+                    srv.faults = {}
+                    if fault != "NO":
+                        srv.closed = False
+                        s.connect(b"", [], "user", "pw", server=srv)
+                    if change == "foreign script under the new name":
+                        srv.scripts[new] = b"# somebody else's\r\ndiscard;\r\n"
+                    elif change == "old script edited" and old in srv.scripts:
+                        srv.scripts[old] = b"keep; # edited\r\n"
+                    before, abefore = dict(srv.scripts), srv.active
+                    out = s.op("renamescript", old.decode(), new.decode())
+                    evals += 1
+                    nontriv += 1
+                    res = out.split(" ")[0][4:]
+                    res = "crash" if res.startswith("crash") else res
+                    for p in judge(before, dict(srv.scripts), abefore, srv.active, old, new, res):
+                        viol.append({"state": "second renamescript on the same client; the first was answered %s at %s (%s); then: %s; old was %sactive" % (
+                            fault, step, first.split(" ")[0], change, "" if was_active else "not "), "fault": None, "what": p, "result": out[:80],
+                            "before": {k.decode(): v.decode("latin-1") for k, v in before.items()}, "after": {k.decode(): v.decode("latin-1") for k, v in srv.scripts.items()}})
     model = run_driver(lines, live_table=False)
     diffs = [{"suite": "client", "request": l[:300], "impl": e[:300], "model": m[:300]} for l, e, m in zip(lines, expect, model) if e != m]
     # the abstract walk (the object of `emulated_rename_is_safe`) against what the real client did to the reference server's store
